@@ -35,7 +35,9 @@ ASSUMPTIONS = [
 ]
 MANIFEST_ENTRY = {
     'technique': 'Hypothesis-generated trial multisets, partitions and '
-                 'container layouts (plain/gzip/zip/nested/merged); reference '
+                 'container layouts (plain/gzip/zip/nested/merged once or twice, '
+                 'empty chunks, plain/gzip twins), groups differing only in '
+                 'decoder options; reference '
                  'model = pooled statistics computed by the harness; '
                  'metamorphic re-partitioning',
     'level_text': 'For every generated layout the analysis rows are compared '
